@@ -291,6 +291,26 @@ func opsValue(c *ctx, ops []int, rep int) (any, string) {
 	}
 }
 
+// viaRegistry obtains the implementation of a role through the key's own factory methods (nil, nil when the role has none)
+func viaRegistry(role string, k key.Key) (any, error) {
+	switch {
+	case strings.HasPrefix(role, "(FSym"):
+		if m, err := k.MACer(); err == nil {
+			return m, nil
+		}
+		e, err := k.Encryptor()
+		if err != nil {
+			return nil, err
+		}
+		return e, nil
+	case role == "FEdSign" || role == "FEcSign":
+		return k.Signer()
+	case role == "FEdVerify" || role == "FEcVerify":
+		return k.Verifier()
+	}
+	return nil, nil
+}
+
 func streamOps(c *ctx) {
 	c.beginCases("From Cose Require Import Model.GoVal Model.Key Model.KeyCorr.", "ops_case", "check_ops_case")
 	type role struct {
@@ -475,6 +495,13 @@ func streamOps(c *ctx) {
 				aux := r.prep(k)
 				keyTerm := qMap(k)
 				impl, err := r.build(k)
+				if form == 1 || !withOps {
+					// the same through the registry (Key.MACer / Encryptor / Signer / Verifier): the implementation a caller
+					// normally gets; narrowing the caller's key afterwards must take effect just the same
+					if ri, rerr := viaRegistry(r.coq, k); rerr == nil && ri != nil {
+						impl, err = ri, nil
+					}
+				}
 				if err != nil {
 					continue
 				}
@@ -583,6 +610,38 @@ func streamOps(c *ctx) {
 			v, nm := opsValue(c, ops, rep)
 			k[iana.KeyParameterKeyOps] = v
 			repName = nm
+		}
+		viaCBOR, cborInterp := false, false
+		var cborOps []int
+		if !absent && c.r.intn(3) == 0 {
+			// the key as a peer sends it: through CBOR (the list arrives as []any of the decoder's integer types; a
+			// malformed list stays malformed)
+			if b, err := key.MarshalCBOR(k); err == nil {
+				var k2 key.Key
+				if key.UnmarshalCBOR(b, &k2) == nil {
+					k = k2
+					repName += " via CBOR"
+					// what arrived, read by the harness itself: a list of integers or not
+					viaCBOR = true
+					cborOps, cborInterp = nil, false
+					if l, ok := k2[iana.KeyParameterKeyOps].([]any); ok {
+						cborInterp = true
+						for _, e := range l {
+							switch x := e.(type) {
+							case int64:
+								cborOps = append(cborOps, int(x))
+							case uint64:
+								cborOps = append(cborOps, int(x))
+							default:
+								cborInterp = false
+							}
+						}
+					}
+					if cborInterp {
+						ops = cborOps
+					}
+				}
+			}
 		}
 		aux := r.prep(k)
 		keyTerm := qMap(k)
@@ -699,6 +758,9 @@ func streamOps(c *ctx) {
 		// oracle for the build step, straight from the property text
 		if !absent {
 			interpretable := rep <= 5
+			if viaCBOR {
+				interpretable = cborInterp
+			}
 			allFam := true
 			hasOp := false
 			for _, o := range ops {
